@@ -70,10 +70,17 @@ unsafe fn zones_ok(user: *mut u8, size: usize, align: usize) -> bool {
     true
 }
 
+/// Blocks of a gibibyte and more (the giant byte-cell arrays: address arithmetic only, the memory is never touched) go
+/// straight to the system allocator: no guard zones, no poisoning, so the pages stay unmapped.
+const PASS_THROUGH: usize = 1 << 30;
+
 unsafe impl GlobalAlloc for Canary {
     unsafe fn alloc(&self, layout: Layout) -> *mut u8 {
         if refuse_now() {
             return std::ptr::null_mut();
+        }
+        if layout.size() >= PASS_THROUGH {
+            return System.alloc_zeroed(layout);
         }
         let fp = front_pad(layout.align());
         let total = fp + layout.size() + RZ;
@@ -93,6 +100,9 @@ unsafe impl GlobalAlloc for Canary {
     }
 
     unsafe fn dealloc(&self, ptr: *mut u8, layout: Layout) {
+        if layout.size() >= PASS_THROUGH {
+            return System.dealloc(ptr, layout);
+        }
         if !zones_ok(ptr, layout.size(), layout.align()) {
             BAD.store(true, Ordering::SeqCst);
             BAD_COUNT.fetch_add(1, Ordering::SeqCst);
@@ -106,6 +116,9 @@ unsafe impl GlobalAlloc for Canary {
 
     unsafe fn alloc_zeroed(&self, layout: Layout) -> *mut u8 {
         let p = self.alloc(layout);
+        if layout.size() >= PASS_THROUGH {
+            return p;       // already zeroed, and must stay untouched
+        }
         if !p.is_null() {
             std::ptr::write_bytes(p, 0, layout.size());
         }
